@@ -63,11 +63,23 @@ class ArgSpec:
             case bool():
                 return str(arg).lower()
             case str():
-                return f'"{arg}"'
+                escaped = (
+                    arg.replace("\\", "\\\\")
+                    .replace('"', '\\"')
+                    .replace("\n", "\\n")
+                    .replace("\t", "\\t")
+                )
+                return f'"{escaped}"'
             case int():
                 return str(arg)
             case float():
-                return str(arg)
+                text = str(arg)
+                if "." not in text and "e" in text:
+                    # exponent form without a fraction (1e-07): the lexer only reads
+                    # numbers with a `.` as floats
+                    mantissa, exponent = text.split("e")
+                    text = f"{mantissa}.0e{exponent}"
+                return text
 
     @staticmethod
     def _spec_parameter_list_type_str(name: str, arg: ParameterListType) -> str:
